@@ -28,11 +28,16 @@
 (* counted from either end.                                                 *)
 (* Input combinations the documentation leaves open put the monitor into    *)
 (* `open` mode, in which it accepts everything: loop end <= loop start or   *)
-(* beyond the audio, start position beyond the slice or after the loop end, *)
+(* beyond the audio, start position beyond the slice,                       *)
 (* reverse on an empty sound, seeks to a time outside the audio / outside   *)
 (* the loop region / after the sound is over, a loop-region change that     *)
 (* leaves the play head after the loop end, a change of the sign of the     *)
 (* rate, a rate change that is ramped across a multi-frame chunk.           *)
+(* A start position after the loop end (in the direction of play) is not    *)
+(* open: the frame at the start position is played and the next frame lies  *)
+(* inside the loop region ("wrapping ... straight" into the loop; which     *)
+(* frame of the region is left to the implementation), the loop continuing  *)
+(* from there.                                                              *)
 EXTENDS Integers, Sequences, FiniteSets
 
 Q    == 4        \* grid of fractional positions
@@ -85,6 +90,11 @@ Shift(m, h) ==
   [w |-> <<h.w[2], h.w[3], h.w[4], IF h.g > 0 THEN ANY ELSE h.q>>,
    q |-> IF h.g > 0 THEN h.q ELSE NM(m, h.q),
    g |-> IF h.g > 0 THEN h.g - 1 ELSE 0]
+
+\* a start after the loop end: one hypothesis per frame of the loop region the wrap may land on
+StartHyps(m, i0) ==
+  IF InDom(m.back, m.lp, i0) THEN {StartHyp(m, i0)}
+  ELSE {[w |-> <<NONE, i0, b, NM(m, b)>>, q |-> NM(m, NM(m, b)), g |-> 0] : b \in m.lp[1]..(m.lp[2] - 1)}
 
 Ended(h) == h.w[2] = NONE /\ h.w[3] = NONE /\ h.w[4] = NONE /\ h.q = NONE /\ h.g = 0
 
@@ -156,8 +166,7 @@ PInit(c) ==
       defined == /\ sliceOK /\ stepOK /\ LoopOK(n, lp)
                  /\ c.start >= 0
                  /\ (c.start < n \/ (c.start = 0 /\ n = 0 /\ ~c.rev))
-                 /\ \A i0 \in starts : InDom(back, lp, i0)
-  IN IF defined THEN [m0 EXCEPT !.hyps = {StartHyp(m0, i0) : i0 \in starts}]
+  IN IF defined THEN [m0 EXCEPT !.hyps = UNION {StartHyps(m0, i0) : i0 \in starts}]
      ELSE [m0 EXCEPT !.open = TRUE]
 
 \* ------------------------------------------------------------ clauses
